@@ -156,6 +156,10 @@ func c08Gen(K int) func(t *rapid.T) c08Case {
 			for i := 0; i < n; i++ {
 				words = append(words, rapid.SampledFrom(gen.LowerPool).Draw(t, "w"))
 			}
+			if rapid.Bool().Draw(t, "plus_uncapitalisable") {
+				// as many twin pairs as genuinely uncapitalisable words
+				words = append(words, rapid.SampledFrom([]string{"4", "42", "正確", "NASA", "Zulu"}).Draw(t, "uncap"))
+			}
 			w = gen.WLSpec{Words: words, Length: rapid.IntRange(1, 12).Draw(t, "len"), Scheme: gen.Scheme(t, true), Sep: gen.Sep(t, false, true)}
 		} else {
 			w = gen.WL(t, gen.WLOpts{List: gen.WordListOpts{Min: 1, Max: 10}, MaxLen: 12, AllowScript: true, UnknownCap: true})
